@@ -356,6 +356,98 @@ def check_finish_cycle(chk, prog):
                         "its argument values behave as %s" % modes)
 
 
+def simp(t):
+    """x + 0 = x, x - 0 = x, 0 * x = 0, as_f64(0) = 0.0 (finite values; see the assumption recorded with the rule)."""
+    if not isinstance(t, tuple) or not t or t[0] != "app":
+        return t
+    op, args = t[1], tuple(simp(a) for a in t[2])
+    zero = lambda v: v in (("f", 0.0), ("i", 0))
+    if op in ("Add", "AddUnchecked") and len(args) == 2:
+        if zero(args[0]):
+            return args[1]
+        if zero(args[1]):
+            return args[0]
+    if op in ("Sub", "SubUnchecked") and len(args) == 2 and zero(args[1]):
+        return args[0]
+    if op in ("Mul", "MulUnchecked") and len(args) == 2 and (zero(args[0]) or zero(args[1])):
+        return ("f", 0.0)
+    if op == "as_f64" and len(args) == 1 and zero(args[0]):
+        return ("f", 0.0)
+    if op in ("max", "min") and len(args) == 2 and args[0] == args[1]:
+        return args[0]
+    return ("app", op, args)
+
+
+def check_sleep(chk, prog):
+    """C09, the clauses about a finished cycle, decided on terms with the sign analysis (finite pacing values assumed):
+    (i) right after a cycle that was rolled over with the debt forgotten (what the driver does after an atomic full
+    cycle) the debt is zero on every path; (ii) from then on, with `a` allocations made since and no collection work,
+    the debt is exactly max(a - W, 0) with W = max(survivors * sleep_factor, min_sleep): zero while a <= W (the
+    collector stays asleep), positive as soon as a exceeds W."""
+    fn, dn = "metrics::Metrics::finish_cycle", "metrics::Metrics::allocation_debt"
+    if not (fn in prog.seed_n and dn in prog.seed_n):
+        return
+    ZERO = ("f", 0.0)
+    reset_vals = [(lab, v) for (lab, v) in finish_cycle_arg_values(prog) if finish_cycle_outcomes(prog, v)[0] == "reset"]
+    if not reset_vals:
+        chk.inst("debt-after-roll-over", "finish_cycle(reset)", False, detail="no argument value makes finish_cycle forget the debt")
+        return
+    ip = interp_for(prog)
+    W_a = ("app", "Mul", (("app", "as_f64", (("sym", "remembered_gcs"),)), ("sym", "sleep_factor")))
+    W_a2 = ("app", "Mul", (("sym", "sleep_factor"), ("app", "as_f64", (("sym", "remembered_gcs"),))))
+    W_b = ("app", "as_f64", (("sym", "min_sleep"),))
+    for (lab, val) in reset_vals:
+        try:
+            posts = [o for o in ip.run(prog.seed_n[fn][0], [ref(("m",), ()), val], mk_state(prog)) if o.kind == "return"]
+        except (interp.Unmodelled, interp.InterpError) as e:
+            chk.inst("debt-after-roll-over", "finish_cycle(%s)" % lab, False, detail="could not be analysed: %s" % e)
+            continue
+        for mode in ("no-allocation", "a-allocations"):
+            probs = []
+            for po in posts:
+                st = po.st.fork()
+                st.frames = []
+                st.cons = {}
+                if mode == "a-allocations":
+                    # `a` allocations since the roll-over: allocated_gcs = a (an unsigned count), total_gcs grows as well
+                    v = st.mem[("mi",)]
+                    def setf(v_, path, new):
+                        if not path:
+                            return new
+                        f = list(v_[3])
+                        f[path[0]] = setf(f[path[0]], path[1:], new)
+                        return (v_[0], v_[1], v_[2], tuple(f))
+                    st.mem[("mi",)] = setf(v, leaf_paths(prog)["allocated_gcs"], ("sym", "a"))
+                try:
+                    outs = [o for o in ip.run(prog.seed_n[dn][0], [ref(("m",), ())], st) if o.kind == "return"]
+                except (interp.Unmodelled, interp.InterpError) as e:
+                    probs.append("could not be analysed: %s" % e)
+                    continue
+                if not outs:
+                    probs.append("allocation_debt has no normal outcome after the roll-over")
+                for o in outs:
+                    v = simp(o.value)
+                    if mode == "no-allocation":
+                        if v != ZERO:
+                            probs.append("the debt right after a roll-over that forgets the debt can be `%s`, not zero: a debt-driven "
+                                         "call would not return with zero debt after an atomic full cycle" % fmt(v)[:200])
+                    else:
+                        if v == ZERO:
+                            continue
+                        ok = False
+                        if v[0] == "app" and v[1] == "max" and ZERO in v[2]:
+                            x = [t_ for t_ in v[2] if t_ != ZERO]
+                            x = simp(x[0]) if x else None
+                            if x and x[0] == "app" and x[1] in ("Sub", "SubUnchecked") and x[2][0] == ("app", "as_f64", (("sym", "a"),)):
+                                w = x[2][1]
+                                ok = w[0] == "app" and w[1] == "max" and set(w[2]) in ({W_a, W_b}, {W_a2, W_b})
+                        if not ok:
+                            probs.append("with `a` allocations since the roll-over and no work done the debt is `%s`, specification says "
+                                         "max(a - max(survivors * sleep_factor, min_sleep), 0)" % fmt(v)[:260])
+            chk.inst("debt-after-roll-over", "finish_cycle(%s):%s" % (lab, mode), not probs, detail="; ".join(sorted(set(probs))[:2]),
+                     sample={"roll_over_argument": lab, "case": mode})
+
+
 def check_helpers(chk, prog):
     ip = interp_for(prog)
     spec = {
